@@ -336,9 +336,12 @@ impl<Sink: TokenSink> Tokenizer<Sink> {
     // NB: this doesn't set the current input character.
     fn eat(&self, input: &BufferQueue, pat: &str, eq: fn(&u8, &u8) -> bool) -> Option<bool> {
         if self.ignore_lf.get() {
-            self.ignore_lf.set(false);
-            if self.peek(input) == Some('\n') {
-                self.discard_char(input);
+            // Only forget about a preceding CR once we have seen what follows it.
+            if let Some(c) = self.peek(input) {
+                self.ignore_lf.set(false);
+                if c == '\n' {
+                    self.discard_char(input);
+                }
             }
         }
 
